@@ -119,6 +119,16 @@ macro_rules! impl_api {
 
             /// Answer `q` on a parsed cache. `visit` sees every borrowed `&str` the library returned.
             pub fn answer_cache_with<'a>(c: &'a ProguardCache<'a>, q: &'a Query, visit: &mut dyn FnMut(&str)) -> String {
+                answer_cache_stepped(c, q, visit, &mut || {})
+            }
+
+            /// `step` is called between successive `next()` calls of a frame iterator (a scheduling point).
+            pub fn answer_cache_stepped<'a>(
+                c: &'a ProguardCache<'a>,
+                q: &'a Query,
+                visit: &mut dyn FnMut(&str),
+                step: &mut dyn FnMut(),
+            ) -> String {
                 let mut out = String::new();
                 match q {
                     Query::Class(name) => {
@@ -141,14 +151,24 @@ macro_rules! impl_api {
                             Some(file) => StackFrame::with_file(class, method, *line, file),
                             None => StackFrame::new(class, method, *line),
                         };
-                        for fr in c.remap_frame(&f) {
-                            render_frame(&mut out, &fr, visit);
+                        let mut it = c.remap_frame(&f);
+                        loop {
+                            step();
+                            match it.next() {
+                                Some(fr) => render_frame(&mut out, &fr, visit),
+                                None => break,
+                            }
                         }
                     }
                     Query::FrameParams { class, method, params } => {
                         let f = StackFrame::with_parameters(class, method, params);
-                        for fr in c.remap_frame(&f) {
-                            render_frame(&mut out, &fr, visit);
+                        let mut it = c.remap_frame(&f);
+                        loop {
+                            step();
+                            match it.next() {
+                                Some(fr) => render_frame(&mut out, &fr, visit),
+                                None => break,
+                            }
                         }
                     }
                     Query::Throwable { class, msg } => {
@@ -188,6 +208,7 @@ macro_rules! impl_api {
                             );
                         }
                     },
+                    Query::MapUuid | Query::MapSummary | Query::MapHasLineInfo | Query::MapIsValid => out.push_str("n/a"),
                 }
                 out
             }
@@ -198,6 +219,10 @@ macro_rules! impl_api {
 
             /// Same rendering for the in-memory mapper.
             pub fn answer_mapper<'a>(m: &'a ProguardMapper<'a>, q: &'a Query) -> String {
+                answer_mapper_stepped(m, q, &mut || {})
+            }
+
+            pub fn answer_mapper_stepped<'a>(m: &'a ProguardMapper<'a>, q: &'a Query, step: &mut dyn FnMut()) -> String {
                 let mut out = String::new();
                 let visit: &mut dyn FnMut(&str) = &mut |_| {};
                 match q {
@@ -212,14 +237,24 @@ macro_rules! impl_api {
                             Some(file) => StackFrame::with_file(class, method, *line, file),
                             None => StackFrame::new(class, method, *line),
                         };
-                        for fr in m.remap_frame(&f) {
-                            render_frame(&mut out, &fr, visit);
+                        let mut it = m.remap_frame(&f);
+                        loop {
+                            step();
+                            match it.next() {
+                                Some(fr) => render_frame(&mut out, &fr, visit),
+                                None => break,
+                            }
                         }
                     }
                     Query::FrameParams { class, method, params } => {
                         let f = StackFrame::with_parameters(class, method, params);
-                        for fr in m.remap_frame(&f) {
-                            render_frame(&mut out, &fr, visit);
+                        let mut it = m.remap_frame(&f);
+                        loop {
+                            step();
+                            match it.next() {
+                                Some(fr) => render_frame(&mut out, &fr, visit),
+                                None => break,
+                            }
                         }
                     }
                     Query::Throwable { class, msg } => {
@@ -250,6 +285,7 @@ macro_rules! impl_api {
                             );
                         }
                     },
+                    Query::MapUuid | Query::MapSummary | Query::MapHasLineInfo | Query::MapIsValid => out.push_str("n/a"),
                 }
                 out
             }
@@ -259,3 +295,18 @@ macro_rules! impl_api {
 
 impl_api!(cur, proguard);
 impl_api!(pin, proguard_pinned);
+
+
+/// Queries on the shared `ProguardMapping` handle (working tree only; `uuid` feature is on).
+pub fn answer_mapping(m: &proguard::ProguardMapping<'_>, q: &Query) -> String {
+    match q {
+        Query::MapUuid => m.uuid().to_string(),
+        Query::MapSummary => {
+            let s = m.summary();
+            format!("{:?}|{:?}|{:?}|{}|{}", s.compiler(), s.compiler_version(), s.min_api(), s.class_count(), s.method_count())
+        }
+        Query::MapHasLineInfo => m.has_line_info().to_string(),
+        Query::MapIsValid => m.is_valid().to_string(),
+        _ => "n/a".into(),
+    }
+}
